@@ -35,7 +35,8 @@ binp = os.path.join(work, "c29race.bin")
 t0 = time.time()
 # -race switches on checkptr, which rejects the array-pointer casts of roaring's mmap decoding
 # (a checker artefact, not a race); it is switched off explicitly.
-p = subprocess.run(["go", "build", "-race", "-gcflags=all=-d=checkptr=0", "-tags", "verif", "-modfile", mod, "-o", binp, "."], cwd=here, env=env,
+ovl = ["-overlay", os.environ["VERIF_GO_OVERLAY"]] if os.environ.get("VERIF_GO_OVERLAY") else []  # see bin/check harness_build
+p = subprocess.run(["go", "build", "-race", "-gcflags=all=-d=checkptr=0", "-tags", "verif", "-modfile", mod] + ovl + ["-o", binp, "."], cwd=here, env=env,
                    stdout=subprocess.PIPE, stderr=subprocess.STDOUT, text=True)
 if p.returncode != 0:
     print(json.dumps({"ok": False, "found": False, "evaluations": 0, "what": "c29race does not build with -race: " + p.stdout[-600:]}))
